@@ -22,7 +22,7 @@
 (***************************************************************************)
 EXTENDS Integers, Sequences, FiniteSets, TLC
 
-CONSTANTS Keys, Prios, MaxMut, NSnap, NReader, FixClose, MaxVer, AllowFail, QuiescentClose
+CONSTANTS Keys, Prios, MaxMut, NSnap, NReader, FixClose, MaxVer, AllowFail, QuiescentClose, FixFail
 
 FREE == -1      \* mark of a node that sits on the free list
 NoVer == 0
@@ -212,20 +212,32 @@ Delete(k) ==
   /\ muts' = muts + 1
   /\ UNCHANGED <<snap, pin>>
 
+\* reclaimMarkClear(root, mark): the error paths of SetItem / Delete undo the
+\* marks the abandoned mutation placed on the still current tree
+RECURSIVE ClearMarks(_, _, _)
+ClearMarks(H, n, m) ==
+  IF n = 0 \/ H.node[n].mark = FREE THEN H
+  ELSE LET H1 == IF H.node[n].mark = m THEN [H EXCEPT !.node[n].mark = 0] ELSE H
+           H2 == ClearMarks(H1, H.node[n].l, m)
+       IN ClearMarks(H2, H.node[n].r, m)
+
 \* a mutation that fails (file error) after its split/union/join have marked
-\* nodes: nothing is published, the marks stay (C07, defect F7)
+\* nodes: nothing is published.  FixFail = FALSE: the marks stay (pinned tree,
+\* defect F7); TRUE: they are cleared (repaired code).
 FailedSet(k, p) ==
   /\ AllowFail /\ cur # NoVer /\ muts < MaxMut
   /\ LET mk == MkNode(heap, k, muts + 1, p, 0, 0)
          u  == Union(mk.H, ver[cur].root, mk.id, cur)
-     IN heap' = u.H
+     IN heap' = IF FixFail THEN ClearMarks(u.H, ver[cur].root, cur) ELSE u.H
   /\ muts' = muts + 1
   /\ UNCHANGED <<ver, vfree, vnext, cur, snap, pin, want>>
 
 FailedDelete(k) ==
   /\ AllowFail /\ cur # NoVer /\ muts < MaxMut
   /\ HasKey(heap, ver[cur].root, k)
-  /\ LET sp == Split(heap, ver[cur].root, k, cur) IN heap' = sp.H
+  /\ LET sp == Split(heap, ver[cur].root, k, cur)
+         j == Join(sp.H, sp.l, sp.r, cur)      \* the failure may come as late as the end of join
+     IN heap' = IF FixFail THEN ClearMarks(j.H, ver[cur].root, cur) ELSE j.H
   /\ muts' = muts + 1
   /\ UNCHANGED <<ver, vfree, vnext, cur, snap, pin, want>>
 
